@@ -10,12 +10,21 @@ Permanent cases: the example of the documentation (Platform_routing.rst) and thr
 routes.  Rejections explained by a recorded defect (KNOWN_FINDINGS.jsonl) are decided with TLC too (flags of the expected
 behaviours, acceptance by the machine with the known deviation switched on).
 
-Mutations tried (tools/mutbuild.sh, quick tier): see the end of this docstring (filled after the experiments)."""
+Binding demonstrated (scratch worktree of /repo, quick tier, `VERIF_REPO=... VERIF_BUILD=...`):
+  * all proposed fixes applied (proposed/fix-C24-interzone-and-bypass.diff, fix-C25-dijkstra.diff, fix-C26-dragonfly.diff):
+    3597 routes asked, 3597 accepted, no rejection, no known finding (the specification raises no false alarm);
+  * m1 NetZoneImpl::get_global_route_with_netzones drops the segment from the gateway of the destination ancestor down to
+    the destination: CAUGHT (exit 1; e.g. nested-stars t1 -> b2 returns lt1 bbT lA1, expected lt1 bbT lA1 bbA lBa xb2 lb2);
+  * m2 NetZoneImpl::get_bypass_route never finds a bypass between zones: run started, stopped before it finished (machine
+    overloaded): NOT EVALUATED;
+  * planned, not run: StarZone gives the gateway of the source as gateway of the destination; FullZone keeps the order of
+    the links of a symmetrical route."""
 import random
 import vlib
 import routing_common as R
 
 LEVEL = "model_checking"
+META = {'text': 'TLC validates, as behaviours of the forwarding machine spec/routing/Hier.tla (zone tree, per-zone routes with gateways, bypass routes, symmetrical routes; global route = up through gateways to the lowest common ancestor, the route or bypass declared there, down), the link list returned by Host::route_to for all host pairs of generated nested platforms (all zone kinds, <= 3 levels, <= 40 hosts) and gives the latency (exact sum of link latencies + Vivaldi terms) compared with the returned one; TLC also explores every behaviour of every pair on the same platforms (destination reached, no gateway met twice). Model checking level: the oracle is the explicit specification, evaluated by TLC, bound to the code by trace validation of every route asked.', 'note': 'Trusted: TLC, the driver route_driver (platform built through the C++ API from the same description as the JSON given to TLC), the syntactic mapping of link names to link numbers. Conformance holds for the platforms generated (seeded), not for all platforms. Rejections explained by the 7 defects recorded in KNOWN_FINDINGS.jsonl (classified with TLC: flags of the expected behaviours, acceptance by the machine with the recorded deviation) do not fail the check. Whether a bypass applies to end-point/gateway segments is left open.', 'technique': 'TLC model checking of Hier (HierMC) + TLC trace validation of Host::route_to results (HierTrace)'}
 DRIVERS = R.DRIVERS
 
 
